@@ -81,8 +81,8 @@ def _run(cond, raw, p, realize=True):
 
 
 TOK_Q = ["a", "b", "|", "(", ")", "*", "+", "?", "{2}", "{1,2}", "[ab]", "[a-c]", "\\d", "\\.", "{0,2}"]
-TOK_T = ["a", "b", "-", ".", "|", "(", ")", "*", "+", "?", "{0}", "{2}", "{1,2}", "{2,2}", "{0,2}", "[ab]", "[^a]",
-         "[a-c]", "[a\\-c]", "[+*()?.|]", "\\d", "\\s", "\\w", "\\.", "\\*", "\\+", "\\?", "\\|", "\\(", "\\[",
+TOK_T = ["a", "b", "-", "|", "(", ")", "*", "+", "?", "{0}", "{2}", "{1,2}", "{2,2}", "{0,2}", "[ab]",
+         "[a-c]", "[a\\-c]", "[+*()?.|]", "\\d", "\\s", "\\.", "\\*", "\\+", "\\?", "\\|", "\\(", "\\[",
          "\\\\"]
 TOK4 = ["a", "b", "|", "(", ")", "*", "+", "?", "{2}", "[ab]"]
 TOK3 = TOK_T if chx.thorough() else TOK_Q
@@ -189,8 +189,8 @@ ASSUME = ["the constructor PythonRegex(p) runs under the symbolic interpreter; t
 CONDS = [
     Cond("C07", c07_tokens3, _sh_tok3,
          {"quick": "0-3 tokens from {a,b,|,(,),*,+,?,{2},{1,2},{0,2},[ab],[a-c],\\d,\\.}",
-          "thorough": "0-3 tokens from the 30-token table incl. '.', [^a], \\w, \\s, {0}, {2,2}, [a\\-c], "
-                      "[+*()?.|], escaped metacharacters"},
+          "thorough": "0-3 tokens from a 28-token table incl. \\s, {0}, {2,2}, {0,2}, [a\\-c], [+*()?.|], escaped "
+                      "metacharacters (the tokens that expand to the whole alphabet are in c07_wide)"},
          FUNCS, RULE, assumptions=ASSUME, per_path_timeout=120),
     Cond("C07", c07_wide, _sh_wide,
          {"quick": "1-2 tokens from {., a, [^a], \\s, \\w, *, |, [^\\d]}: the constructs that expand to the whole "
